@@ -1,6 +1,7 @@
 import Naga.Sexp
 import Naga.Sem.IRTyping
 import Naga.Model.Registry
+import Naga.Model.RegKey
 namespace Naga.Driver.C09
 open Naga
 
@@ -33,7 +34,11 @@ def handle (line : String) : String :=
   match Sexp.parseLine line with
   | some [.list (.atom "reg" :: reqs)] =>
     match reqs.mapM parseReq with
-    | some rs => let (a, hs) := Registry.runReqs [] rs; s!"handles {hs} size {a.length}"
+    | some rs =>
+      let (a, hs) := Registry.runReqs [] rs
+      -- the model's dedup key of every request, to be compared with the real key character for character
+      let keys := rs.map (fun e => String.ofList (Registry.keyOf e))
+      s!"handles {hs} size {a.length} keys {" | ".intercalate keys}"
     | none => "bad-case request"
   | some [.list [.atom "c09", x]] =>
     match IRTyping.validateTyped x with
